@@ -259,7 +259,23 @@ def check_parse_dibs(chk: Check, repo: Repo) -> None:
                 reads_self = sorted({ast.unparse(x) for x in ast.walk(w.stmt.value) if isinstance(x, ast.Attribute) and isinstance(x.value, ast.Name) and x.value.id == "self"})
                 v_ = w.stmt.value
                 plain = isinstance(v_, ast.Call) and isinstance(v_.func, ast.Attribute) and v_.func.attr == "supports" and [ast.unparse(a) for a in v_.args] == [f"DIBServiceFamily.{fam}"] and not v_.keywords
-                fam_ok = f"DIBServiceFamily.{fam}" in src and not reads_self and plain
+                if attr.endswith("requires_secure"):
+                    # an announcement accumulates over the blocks of that type: the DIB's own word `or` the flag's
+                    # previous value (and nothing else) - a plain assignment lets a second block erase the first
+                    def own(x: ast.AST) -> bool:
+                        if isinstance(x, ast.Call) and call_name(x) == "bool" and len(x.args) == 1:
+                            x = x.args[0]
+                        if isinstance(x, ast.Compare) and len(x.ops) == 1 and isinstance(x.ops[0], ast.Is) and isinstance(x.comparators[0], ast.Constant) and x.comparators[0].value is True:
+                            x = x.left
+                        return ast.unparse(x) == f"self.{attr}"
+                    def says(x: ast.AST) -> bool:
+                        return isinstance(x, ast.Call) and isinstance(x.func, ast.Attribute) and x.func.attr == "supports" and [ast.unparse(a) for a in x.args] == [f"DIBServiceFamily.{fam}"] and not x.keywords
+                    sticky = isinstance(v_, ast.BoolOp) and isinstance(v_.op, ast.Or) and sum(1 for o in v_.values if says(o)) == 1 and all(says(o) or own(o) for o in v_.values) and any(own(o) for o in v_.values)
+                    fam_ok = sticky
+                    if plain:
+                        detail.append("a plain assignment: the last DIBSecuredServiceFamilies block of a response wins and resets what an earlier block announced as secured")
+                else:
+                    fam_ok = f"DIBServiceFamily.{fam}" in src and not reads_self and plain
             elif attr == "supports_tunnelling":
                 fam_ok = any(f"DIBServiceFamily.{fam}" in t and v for t, v in facts)
             elif attr == "supports_tunnelling_tcp":
